@@ -352,7 +352,8 @@ pub fn gen_requests(rng: &mut Rng, n: u64, out: &mut Out) -> Vec<String> {
                 }
                 if decks[ph].len() < 10 {
                     let mut d: Vec<(&str, &str)> = vec![];
-                    for c in &all { for m in ["valid", "valid", "missing", "illtyped", "noargs"] { d.push((c, m)); } }
+                    // (`attach`: the well-typed form names a process that does not exist - there is no live target here)
+                    for c in &all { for m in ["valid", "valid", "missing", "illtyped", "noargs"] { d.push((c, if *c == "attach" && m == "valid" { "nofile" } else { m })); } }
                     for i in (1..d.len()).rev() { let j = rng.below(i as u64 + 1) as usize; d.swap(i, j); }
                     decks[ph] = d;
                 }
@@ -473,6 +474,29 @@ fn thread_probe(ids: &[i64]) {
 
 struct Req { cseq: i64, cmd: String, mutn: String, param: u64, piped: bool }
 
+/// how much slower than an idle machine this one is right now: (1-minute load average / cpus), at least 1.
+/// Launching a debuggee costs ~10 CPU-seconds (parallel DWARF loading): on a machine shared with other builds the
+/// stall limits below are multiplied by this factor, so that a starved session is not taken for a hung adapter.
+fn load_factor() -> u64 {
+    let load = std::fs::read_to_string("/proc/loadavg").ok().and_then(|s| s.split(' ').next().and_then(|x| x.parse::<f64>().ok())).unwrap_or(0.0);
+    let cpus = std::thread::available_parallelism().map(|n| n.get()).unwrap_or(1) as f64;
+    ((load / cpus).ceil() as u64).clamp(1, 20)
+}
+
+/// direct children of this process (the debuggee, or a forked child that has not yet become it)
+fn child_pids() -> Vec<i32> {
+    let me = std::process::id();
+    let mut out = vec![];
+    for e in std::fs::read_dir("/proc").into_iter().flatten().flatten() {
+        let p = e.file_name().to_string_lossy().to_string();
+        if !p.chars().all(|c| c.is_ascii_digit()) { continue; }
+        let st = std::fs::read_to_string(format!("/proc/{p}/stat")).unwrap_or_default();
+        let after: Vec<&str> = st.rsplit(')').next().unwrap_or("").split_whitespace().collect();
+        if after.get(1).and_then(|x| x.parse::<u32>().ok()) == Some(me) { if let Ok(pid) = p.parse() { out.push(pid); } }
+    }
+    out
+}
+
 /// where every thread of this process and every child process is blocked (kept in the session log of a hang)
 fn hang_diag() -> Value {
     let rd = |p: String| std::fs::read_to_string(p).unwrap_or_default().trim().to_string();
@@ -497,6 +521,14 @@ fn hang_diag() -> Value {
 }
 
 fn worker(variant: &str, force: &str, reqs: &[Req], log: &Path, expected_len: (u64, u64)) -> ! {
+    // own process group (the watchdog kills the group), no inherited stdout/stderr (a forked child of the library
+    // must not keep the pipes of `check` open), a small DWARF-loading pool (several sessions run side by side)
+    unsafe {
+        libc::setpgid(0, 0);
+        let null = libc::open(c"/dev/null".as_ptr(), libc::O_WRONLY);
+        if null >= 0 { libc::dup2(null, 1); libc::dup2(null, 2); }
+    }
+    if std::env::var_os("RAYON_NUM_THREADS").is_none() { unsafe { std::env::set_var("RAYON_NUM_THREADS", "4"); } }
     let rec = Arc::new(Recorder { f: Mutex::new(std::fs::File::create(log).unwrap()) });
     *ALLOC_LOG.lock().unwrap() = Some(rec.clone());
     bugstalker::dap::verif::set_sched_hook(Some(sched_hook));
@@ -518,7 +550,12 @@ fn worker(variant: &str, force: &str, reqs: &[Req], log: &Path, expected_len: (u
     let wait_reads = |k: u64, i: usize| {
         let t0 = Instant::now();
         while READS.load(Ordering::SeqCst) < k && !h.is_finished() {
-            if t0.elapsed() > Duration::from_secs(40) { rec.rec(json!({"t": "hang", "i": i, "diag": hang_diag()})); unsafe { libc::_exit(3) } }
+            if t0.elapsed() > Duration::from_secs(40 * load_factor()) {
+                rec.rec(json!({"t": "hang", "i": i, "diag": hang_diag()}));
+                // leave no stopped child behind (it would keep inherited descriptors open for ever)
+                for c in child_pids() { unsafe { libc::kill(c, libc::SIGKILL); } }
+                unsafe { libc::_exit(3) }
+            }
             std::thread::sleep(Duration::from_micros(300));
         }
     };
@@ -668,8 +705,8 @@ fn run_workers_once(sessions: &[Session], which: &[usize], dir: &Path, expected:
                 running.swap_remove(i);
                 continue;
             }
-            if t0.elapsed() > Duration::from_secs(120) {
-                unsafe { libc::kill(pid, libc::SIGKILL); libc::waitpid(pid, &mut st, 0); }
+            if t0.elapsed() > Duration::from_secs(150 * load_factor()) {
+                unsafe { libc::kill(-pid, libc::SIGKILL); libc::kill(pid, libc::SIGKILL); libc::waitpid(pid, &mut st, 0); }
                 results[idx].1 = "watchdog".into();
                 running.swap_remove(i);
                 continue;
